@@ -70,7 +70,7 @@ def run(ctx):
                 S["in.container"] = "[Container]\nImage=img\nPod=pd.pod\n"
             for j in range(rng.randint(0, 2)):
                 typ = rng.choice(["container", "volume", "network", "image", "kube"])
-                S["s%d.%s" % (j, typ)] = gen_conv.gen_unit(rng, typ, 0.3)[0]
+                S["s%d.%s" % (j, typ)] = re.sub(r"(?m)^ServiceName=(.*)$", lambda m: "ServiceName=%s-s%d" % (m.group(1), j), gen_conv.gen_unit(rng, typ, 0.3)[0])
             E, broken = {}, []
             for j in range(rng.randint(1, 5)):
                 r = rng.random()
